@@ -1431,6 +1431,18 @@ func (c *Cache) handleCacheHit(
 	// the pre-Phase-3d !w.Internal() guard.
 	if depth := cnameChaseDepth(ctx); depth < maxCnameChaseDepth {
 		msg = c.additionalAnswer(withCnameChaseDepth(ctx, depth+1), msg)
+		if msg.Rcode == dns.RcodeServerFailure && middleware.RecursionWorkEnforcementError(ctx) != nil {
+			// The chase ran the request tree over its budget. The failure it
+			// built is made from the message rebuilt out of the cache entry,
+			// which has no OPT, so the policy's Extended DNS Error had nowhere
+			// to go. Build it from the client's request, as the miss path does.
+			edeCode, edeText := middleware.RecursionWorkEDE(ctx)
+			do := false
+			if opt := req.IsEdns0(); opt != nil {
+				do = opt.Do()
+			}
+			msg = dnsutil.SetRcodeWithEDE(req, dns.RcodeServerFailure, do, edeCode, edeText)
+		}
 	}
 
 	_ = w.WriteMsg(msg)
